@@ -65,6 +65,10 @@ def check(run):
             run.note(rid, 'per-site analysis skipped (%s); the clause is decided by C07-DISCOVERY' % e, fn=disc)
     run.attempt(agg, run, p)
     run.attempt(distinct, run, p)
+    from .common import shared_rule
+    from .c09 import datepath as _datepath, kind_classes as _kc
+    shared_rule(run, _datepath, (run, p, _kc(p)), 'C09-DATEPATH', 'C07-WRITTEN', ' (the minimum and maximum reported are values of the column: a date bound is written with every digit it has, '
+                'fractions of a second included, so the bound in the .tdda file is still attained)')
     nocache_rule(run, 'C07-NOSHARED', p, ['tdda.constraints.db.drivers', 'tdda.constraints.db.constraints', 'tdda.constraints.baseconstraints'],
                  'statistics describe the table or frame at hand: no memoising decorator and no class-level container used as a cache in the '
                  'database handlers or the shared discovery/verification base (such a cache is keyed by name only and shared by every connection)')
